@@ -129,6 +129,12 @@ BoundaryStrings ==
         base == {top, IncDig(top), IncDig(IncDig(top)), [i \in 1..ND |-> 61], [i \in 1..(ND+1) |-> 0],
                  <<1>> \o [i \in 1..ND |-> 0], [i \in 1..(ND-1) |-> 61], <<0>>, <<61>>}
                 \cup { RenderOf(x) : x \in Powers }
+                \* strings shaped like OTHER renderings of 16 bytes (32 hexadecimal digits, with and without the dashes of the
+                \* canonical UUID text): hexadecimal digits are base-62 digits too, so these are ordinary parser inputs -
+                \* 32 x "f" does not fit in 16 bytes, 0...010 is the padded rendering of 62, "F" and "f" are different digits
+                \cup { [i \in 1..32 |-> d] : d \in {15, 41, 1} }
+                \cup { [i \in 1..32 |-> IF i = 31 THEN 1 ELSE 0], [i \in 1..32 |-> IF i = 1 THEN 10 ELSE 0], [i \in 1..32 |-> 0] }
+                \cup { [i \in 1..36 |-> IF i \in {9, 14, 19, 24} THEN MINUS ELSE d] : d \in {15, 0} }
     IN base \cup { <<0>> \o s : s \in base } \cup { <<MINUS>> \o s : s \in base } \cup { <<PLUS>> \o s : s \in base }
             \cup { s \o <<102>> : s \in base } \cup { <<PLUS, MINUS>> \o s : s \in base }
 
@@ -192,7 +198,8 @@ ParseDigit ==
     /\ ~(pos = 1 /\ sign = 0 /\ inp[1] \in {MINUS, PLUS})
     /\ IF IsDigit(inp[pos])
        THEN LET r == MulAdd(acc, 62, inp[pos]) IN
-              /\ acc' = r[1] /\ pos' = pos + 1 /\ UNCHANGED verdict
+              \* (a value that no longer fits the accumulator stays too large: saturate instead of wrapping)
+              /\ acc' = (IF r[2] # 0 THEN [i \in 1..AW |-> 255] ELSE r[1]) /\ pos' = pos + 1 /\ UNCHANGED verdict
        ELSE /\ verdict' = "bad-char" /\ UNCHANGED <<acc, pos>>
     /\ UNCHANGED <<phase, kind, id, work, digits, inp, sign, back>>
 
